@@ -29,6 +29,8 @@ GEOS = [
     {"so": "shampoo", "shapes": [[4, 3]], "block": 1024, "merge": 3, "mbps": True, "param_scale": 1e-5},
     # the second block gets no gradient at step 0: zero covariance -> zero root until the next refresh
     {"so": "shampoo", "shapes": [[6, 2]], "block": 3, "merge": 2, "zero_rows_first": [3, 6, 1]},
+    # ... and the whole parameter: its second-order direction is exactly zero until the roots are refreshed
+    {"so": "shampoo", "shapes": [[4, 3]], "block": 1024, "merge": 3, "zero_rows_first": [0, 4, 1]},
     {"so": "sketchy", "shapes": [[5, 4]], "block": 1024, "merge": 4, "rank": 2},
     {"so": "sketchy", "shapes": [[6, 3]], "block": 1024, "merge": 3, "rank": 2},
     {"so": "sketchy", "shapes": [[4, 5]], "block": 1024, "merge": 4, "rank": 2, "sk_rel": False, "sk_eps": 1e-6},
